@@ -30,8 +30,13 @@ def extra_histories(n, seed):
                 h.append({"op": "construct", "i": i, "preset": rnd.choice(["commonmark", "js-default", "zero"]), "upd": upd})
                 live.add(i)
                 continue
-            op = rnd.choice(["parse", "parse", "parse", "enable", "disable", "setopt", "add_render_rule", "configure",
-                             "discard", "use"])
+            op = rnd.choice(["parse", "parse", "parse", "enable", "disable", "setopt", "setopt", "add_render_rule", "configure",
+                             "discard", "use", "share_opts"])
+            if op == "share_opts":
+                others = sorted(live - {i})
+                if others:
+                    h.append({"op": op, "i": i, "j": rnd.choice(others)})
+                continue
             if op == "parse":
                 h.append({"op": op, "i": i, "api": rnd.choice(["render", "parse"]), "doc": rnd.choice(["D1", "D2", "D3"]),
                           "env": rnd.choice(["omitted", "fresh", "shared"])})
